@@ -104,9 +104,20 @@ def _cfg(c):
         return {}
 
 
+def _pipe_events(c):
+    nl = int(c[4])
+    return c13_events(c[:4] + c[5 + nl:])
+
+
 def sig_lenient_nested_json(c, i, m, k):
     """json_decode / decode(json): the only failures are badjson:std on events carrying a string
     that is not standard JSON (insane-json accepts and re-emits it verbatim)"""
+    if c[0] == "c13.pipe" and c[1] in ("json_decode", "decode"):
+        if c[1] == "decode" and _cfg(c).get("decoder", "json") != "json": return False
+        sts = [t for t in i if not t.startswith(("in=", "out=", "left="))]
+        if not i or i[-1] != "left=0" or any(t not in ("ok", "badjson:std") for t in sts) or "badjson:std" not in sts: return False
+        strs = [s for _, ss in _pipe_events(c) for s in ss]
+        return any(s[:1] in (b"{", b" ") and not _strict_json(s) for s in strs)
     if c[0] != "c13.act" or c[1] not in ("json_decode", "decode"): return False
     if c[1] == "decode" and _cfg(c).get("decoder", "json") != "json": return False
     pairs, st = c13_pairs(i)
@@ -125,6 +136,11 @@ def sig_lenient_nested_json(c, i, m, k):
 def sig_k8s_cutoff_splits_escape(c, i, m, k):
     """k8s-multiline with cut_off_event_by_limit and a max_event_size: the only failures are
     badjson:std on the event that closes a cut-off line"""
+    if c[0] == "c13.pipe" and c[1] == "k8s-multiline":
+        ps = c[3].split(":")
+        sts = [t for t in i if not t.startswith(("in=", "out=", "left="))]
+        return (len(ps) == 4 and ps[0] != "0" and ps[1] == "1" and bool(i) and i[-1] == "left=0"
+                and all(t in ("ok", "badjson:std") for t in sts) and "badjson:std" in sts)
     if c[0] != "c13.act" or c[1] != "k8s-multiline": return False
     ps = c[3].split(":")
     if len(ps) != 4 or ps[0] == "0" or ps[1] != "1": return False
@@ -139,6 +155,8 @@ def sig_k8s_cutoff_splits_escape(c, i, m, k):
 
 
 def c13_nontrivial(c, i):
+    if c[0] == "c13.pipe":
+        return bool(i) and i[0].startswith("in=") and i[0] != "in=0"
     if c[0] == "c13.act":
         pairs, _ = c13_pairs(i)
         return any(not s.startswith("skip:") for _, s in pairs)
@@ -173,6 +191,18 @@ def c13_classify(c, i):
         if "T" in kinds: out.append("has-timeout-event")
         if "R" in kinds: out.append("has-raw-text-event")
         if c[3] != "0:0:-:0": out.append("pipeline-settings-nondefault")
+    elif c[0] == "c13.pipe":
+        out.append("pipe-plugin=" + c[1])
+        if i and i[0] == "cfg-rejected":
+            out.append("pipe:cfg-rejected")
+        else:
+            for t in i:
+                if t.startswith("out="): out.append("pipe:out=" + ("0" if t == "out=0" else "1+"))
+                elif t.startswith("left="): out.append("pipe:" + t if t == "left=0" else "pipe:left>0")
+                elif not t.startswith("in="): 
+                    lab = "pipe:status=" + t
+                    if lab not in out: out.append(lab)
+            out.append("pipe:metric-labels=" + c[4])
     elif c[0] == "c13.subst":
         kinds = sorted({t for t in c if t in ("cut", "trimto", "trim", "re")})
         out.append("filters=" + "+".join(kinds))
@@ -242,9 +272,9 @@ CFG = {
     "facts": [("holding-plugins-get-timeouts", fact_holding_plugins), ("five-action-results", fact_five_results)],
     "signatures": {"c13_lenient_nested_json": sig_lenient_nested_json, "c13_k8s_cutoff_splits_escape": sig_k8s_cutoff_splits_escape},
     "rule": "per plugin: the systematic configuration list (every documented option) x every value of the adversarial value list at the configured fields (chunks of 14 events; a rotating third of the list in quick) "
-            "+ root shapes/raw texts + random configurations x random sequences (quick 40x5, thorough 1200x10 per plugin); cores: exhaustive strings over {a,b} up to length 4/6 x every filter/mode/cutset/group order, "
+            "+ root shapes/raw texts + random configurations x random sequences (quick 150x6, thorough 1200x10 per plugin) + 8/120 real-pipeline runs per plugin (c13.pipe); cores: exhaustive strings over {a,b} up to length 4/6 x every filter/mode/cutset/group order, "
             "all strings over {\\,u,x,0,d,8} up to length 5/6 for the utf8 scanner, random chains; distinct = distinct case line; non-trivial = at least one event was really processed (cores: a value was produced)",
-    "corr_name": "modelled cores: Act.Subst.run = modify filters, Act.Utf8Bytes.convert = convert_utf8_bytes, Act.HashTok = normalizer tokenizer, Act.Fields = rename/move; c13.act has no model column (M echoes the implementation)",
+    "corr_name": "c13.pipe: the same inside a real pipeline (processor.doActions/countEvent, Propagate, Spawn, real time-outs), no model column; modelled cores: Act.Subst.run = modify filters, Act.Utf8Bytes.convert = convert_utf8_bytes, Act.HashTok = normalizer tokenizer, Act.Fields = rename/move; c13.act has no model column (M echoes the implementation)",
     "trusted_base": [
         "un-modelled plugin bodies (16 harness-only plugins + the glue around the modelled cores): validated by the harness only",
         "insane-json (Dig/AddField/Suicide/MutateTo*/Encode/decoder leniency), regexp, bytes.Trim for non-ASCII cutsets, prometheus client, go-faster/jx, lexmachine, time.Parse/Format: exercised, not modelled",
